@@ -189,8 +189,9 @@ def periods(W, p):
     v = W.int("v", 0, 10 ** 6)
     W.prove(W.eq(_secs(W, tk.normalize_period(v)), v), "period-spellings")
     W.prove(W.eq(_secs(W, tk.normalize_period(W.td(v))), v), "period-spellings")
-    for unit, mult in (("s", 1), ("m", 60), ("h", 3600)):
+    for unit, mult in (("s", 1), ("m", 60), ("h", 3600), ("d", 86400)):  # d as the shipped configuration files document it
         W.prove(W.eq(_secs(W, tk.normalize_period([v, unit])), v * mult), "period-spellings", dict(unit=unit))
+        W.prove(W.eq(_secs(W, tk.normalize_period((v, unit))), v * mult), "period-spellings", dict(unit=unit, spelled="tuple (the TimeDelta alias names it)"))
     # datetime.timedelta cannot hold a symbolic value: concrete family
     for sec in (0, 1, 59, 60, 3599, 3600, 86399, 86400, 90061):
         W.prove(W.eq(_secs(W, tk.normalize_period(datetime.timedelta(seconds=sec))), sec), "period-spellings", dict(timedelta=sec))
@@ -249,7 +250,10 @@ def malformed(W, p):
         except ValueError:
             ok = True
         W.prove(ok, "period-malformed", dict(text=s))
-    for bad in (None, 3.5, {"a": 1}, ("a", "b")):
+    import numpy as rnp
+
+    for bad in (None, 3.5, {"a": 1}, ("a", "b"), "PT1H" + chr(10), [1, "10s"], [600, "generic"], True, [True, "h"],
+                rnp.timedelta64(1500, "ms"), datetime.timedelta(seconds=1.5)):  # (sub-second values must not be truncated silently)
         try:
             tk.normalize_period(bad)
             ok = False
